@@ -265,6 +265,9 @@ def quiet_call(prefix, fn, *args, **kw):
 def prepare(case):
     """-> repository tree after the optional binarize, and the model of that tree"""
     tree = M.build(case["tree"], T)
+    if case.get("pre_inorder") and M.tree_gapdeg(case["tree"]["root"]) == 0:
+        # history on the same objects: an extraction before the tree is restructured must not influence later ones
+        quiet_call("C10/inorder", transitions.inorder, tree)
     if case.get("binarize"):
         tree = quiet_call("C10/binarize", transform.binarize, tree)
     try:
@@ -285,17 +288,27 @@ def check_api(case):
     actions = [str(t) for t in trans]
     want = model_form(model, with_heads=(system != "inorder"))
     judge(prefix, system, exp_sentence, actions, want)
+    # extracting again from the same tree gives the same answer (the first extraction must not have consumed anything)
+    sentence2, trans2 = quiet_call(prefix, getattr(transitions, system), tree)
+    if [tuple(x) for x in sentence2] != exp_sentence or [str(t) for t in trans2] != actions:
+        raise violation(prefix + "/second-extraction-differs", "second call on the same tree gives %r / %r, first gave %r" % (sentence2, [str(t) for t in trans2], actions))
     # the written file
-    for use_pos in (False, True):
+    encodable = all(ord(c) < 256 for pair in exp_sentence for item in pair for c in item)
+    for use_pos, enc, copies in ((False, "utf-8", 1), (True, "utf-8", 2), (False, "utf-16", 2)) + (((True, "latin-1", 2),) if encodable else ()):
         dest = os.path.join(tempfile.gettempdir(), "c10_%d.trans" % os.getpid())
         params = {"pos": True} if use_pos else {}
-        quiet_call(prefix + "/plain", transitionoutput.plain, [(sentence, trans)], dest, "utf-8", **params)
-        with open(dest, encoding="utf-8") as stream:
-            lines = stream.read().split("\n")
+        quiet_call(prefix + "/plain", transitionoutput.plain, [(sentence, trans)] * copies, dest, enc, **params)
+        with open(dest, "rb") as stream:
+            data = stream.read()
         os.remove(dest)
-        if len(lines) != 2 or lines[1] != "":
+        try:
+            lines = data.decode(enc).split("\n")
+        except UnicodeDecodeError as exc:
+            raise violation(prefix + "/plain/encoding", "file written with %s does not decode: %s" % (enc, exc))
+        if len(lines) != copies + 1 or lines[-1] != "":
             raise violation(prefix + "/plain/not-one-line-per-tree", "%r" % (lines,))
-        check_line(prefix + "/plain", system, lines[0], exp_sentence, want, use_pos)
+        for line in lines[:-1]:
+            check_line(prefix + "/plain", system, line, exp_sentence, want, use_pos)
     return model, actions
 
 
@@ -363,7 +376,7 @@ def api_case(draw, max_tokens):
         for i, child in enumerate(node["c"]):
             child["h"] = (i == pick)
     tree["root"]["h"] = False
-    return {"system": system, "tree": tree, "binarize": via_binarize}
+    return {"system": system, "tree": tree, "binarize": via_binarize, "pre_inorder": draw(st.integers(0, 3)) == 0}
 
 
 def classes_of(model, actions, system):
